@@ -51,6 +51,11 @@ def make_mapping(rng, ids, kind):
         extra = [x for x in range(-900, -300) if x not in ids]
         for k_, t_ in zip(rng.sample(extra, len(ids) - len(sub)), tgt[len(sub):]):
             m[k_] = t_
+        # a table written for another molecule may point at labels this graph uses (and does not rename itself)
+        stay = [a for a in ids if a not in sub]
+        foreign = [k_ for k_ in m if k_ not in ids]
+        for k_, t_ in zip(foreign, rng.sample(stay, min(len(stay), len(foreign), rng.randint(0, 2)))):
+            m[k_] = t_
         return m
     if kind == "swap":
         if len(ids) < 2:
@@ -120,7 +125,11 @@ def check_case(ctx, case):
     if has_change:
         ctx.count("with_changes")
     try:
-        h = g.relabel_atoms(dict(m), copy=copy)
+        marg, mkind, munchanged = model.mapping_arg(list(m.items()), (case["bseed"], kind))
+        ctx.count(f"mapping_given_as:{mkind}")
+        h = g.relabel_atoms(marg, copy=copy)
+        if not munchanged():
+            ctx.violate(f"C11/caller-mapping-modified/{cls}/{mkind}", f"relabel_atoms changed the caller's {mkind} ({kind} mapping, {mode})", case)
     except Exception as e:  # noqa: BLE001
         ctx.violate(f"C11/relabel-raises:{type(e).__name__}/{key}", f"relabel_atoms raised {e!r} for a {kind} mapping ({mode})", case)
         return
@@ -146,8 +155,8 @@ def check_case(ctx, case):
         if d1:
             ctx.violate(f"C11/in-place-did-not-rename-self/{key}", f"self after relabel_atoms(copy=False): {d1[0]}", case)
     # inverse mapping restores the labelled graph
-    inv = {b: a for a, b in m.items()}
-    if len(inv) == len(m):
+    inv = {b: a for a, b in m.items() if a in src["atoms"]}  # (entries whose key is not an atom rename nothing)
+    if len(inv) == len([a for a in m if a in src["atoms"]]):
         try:
             back = h.relabel_atoms(inv, copy=True)
             ctx.count("inverse_checked")
